@@ -313,6 +313,21 @@ fn judge_history(c: &HistCase, cls: &mut Classifier) -> Verdict {
         _ => return fail("valid key", c.key_hex.clone(), "bad replay case"),
     };
     let mut scratch = Classifier::default();
+    // prelude: one fixed transaction of each kind, results ignored - whatever a single-slot memo holds from an
+    // earlier case on this thread is replaced, so that a failure below depends on this history alone and the
+    // replay file reproduces it
+    for doc in [
+        r#"{"nonce":1,"gasPrice":2,"gas":3,"to":"0x00000000000000000000000000000000000000aa","value":4,"data":"0x05","chainId":6}"#,
+        r#"{"nonce":1,"gasPrice":2,"gas":3,"value":4,"data":"0x","chainId":6,"accessList":[["0x00000000000000000000000000000000000000bb",["0x00000000000000000000000000000000000000000000000000000000000000cc"]]]}"#,
+        r#"{"nonce":1,"maxPriorityFeePerGas":2,"maxFeePerGas":3,"gas":4,"value":5,"data":"0x","chainId":6,"accessList":[]}"#,
+    ] {
+        let _ = catch(|| {
+            serde_json::from_str::<Transaction>(doc).ok().map(|t| {
+                let _ = t.signing_message();
+                t.encode(hdwallet::account::Signature::from_parts(ethnum::U256::ONE, ethnum::U256::ONE, 0))
+            })
+        });
+    }
     for (i, s) in c.steps.iter().enumerate() {
         check_tx(&s.doc, &s.model, &key, &mut scratch).map_err(|mut e| {
             e.note = format!("step {i} ({}) of the history {:?}, each step encoded after the previous ones on one thread: {}", c.changes.get(i).map(String::as_str).unwrap_or("?"), c.changes, e.note);
